@@ -1,7 +1,7 @@
 """C15 - captured errors tick once, where they happen, and do not disturb the rest (differential vs fault-free twin)."""
 from __future__ import annotations
 import copy
-from .runner import Result, Violation
+from .runner import Result, Violation, scaled
 from .gen_core import gen_case, ProgGen, UID, gen_script
 from .prog import Case, S
 from . import model as M
@@ -156,7 +156,7 @@ def _solo_of(c):
 
 
 def generate(rng, tier, seed):
-    n = 300 if tier == "quick" else 5000
+    n = scaled(300 if tier == "quick" else 5000)
     cases = []
     k = 0
     while len(cases) < 2 * n:
@@ -164,7 +164,7 @@ def generate(rng, tier, seed):
         k += 1
         if pr:
             cases += list(pr)
-    nm = 120 if tier == "quick" else 2000
+    nm = scaled(120 if tier == "quick" else 2000)
     k = 0
     got = 0
     while got < nm:
